@@ -64,7 +64,11 @@ func OracleConvergence(prop string) func(w *Writers, hist []string) []explore.Vi
 			// loading from disk is one of the delivery routes: in this fault-free world it hands the replica
 			// exactly the entries it held
 			delete(w.Scratch, "reload-changed-set")
-			out = append(out, explore.Violation{Property: prop, Signature: "load-from-disk-changed-entry-set", Detail: msg})
+			sig := "load-from-disk-changed-entry-set"
+			if strings.Contains(msg, "snapshot") {
+				sig = "load-from-own-snapshot-changed-entry-set"
+			}
+			out = append(out, explore.Violation{Property: prop, Signature: sig, Detail: msg})
 		}
 		for i, s := range w.Stores {
 			set := w.SetKey(i)
@@ -152,6 +156,8 @@ type C01Arg struct {
 	Antichains bool     `json:"antichains"`
 	Reload     bool     `json:"reload"`
 	Snapshot   bool     `json:"snapshot"`
+	SnapLive   bool     `json:"snaplive"`   // save a snapshot and keep running; load it on the running store later
+	FaultWrite bool     `json:"faultwrite"` // local writes whose head-list write fails
 	Gated      bool     `json:"gated"`
 }
 
@@ -168,6 +174,12 @@ func (a C01Arg) Name() string {
 	}
 	if a.Snapshot {
 		n += "/snapshot"
+	}
+	if a.SnapLive {
+		n += "/snapshot-on-running-store"
+	}
+	if a.FaultWrite {
+		n += "/faulty-writes"
 	}
 	if a.Gated {
 		n += "/gated"
@@ -231,6 +243,8 @@ func runC01Unit(c *explore.Ctx, prop string, oracle func(w *Writers, a C01Arg)) 
 			w.Mem = mem
 			w.Dup = a.Dup
 			w.Routes, w.Antichains, w.Reload, w.Snapshot, w.Gated = a.Routes, a.Antichains, a.Reload, a.Snapshot, a.Gated
+			w.SnapshotLive = a.SnapLive
+			w.FaultyWrite = a.FaultWrite
 			if a.Observer {
 				if err := w.AddObserver(); err != nil {
 					return nil, err
@@ -275,6 +289,15 @@ func init() {
 				u = append(u, c01Units(C01Arg{DFSArg: DFSArg{Kind: k.kind, Writers: 2, Depth: d2, Alpha: k.alpha, Dup: true}, Observer: true, Routes: []string{"sync", "topic", "direct"}, Antichains: true}, 16)...)
 				// reload from disk and snapshot round trips
 				u = append(u, c01Units(C01Arg{DFSArg: DFSArg{Kind: k.kind, Writers: 2, Depth: d3, Alpha: k.alpha}, Observer: true, Routes: []string{"direct"}, Reload: true, Snapshot: true}, 16)...)
+			}
+			// a snapshot saved earlier loaded on the running store, which holds more by then (the snapshot route
+			// re-delivering entries the replica already has)
+			for _, k := range []struct{ kind, alpha string }{{"eventlog", "one"}, {"keyvalue", "twokeys"}} {
+				sl := 4
+				if tier == "thorough" {
+					sl = 5
+				}
+				u = append(u, c01Units(C01Arg{DFSArg: DFSArg{Kind: k.kind, Writers: 2, Depth: sl, Alpha: k.alpha}, SnapLive: true}, 8)...)
 			}
 			// two concurrent remote branches merged in separate batches, then reload from disk
 			rd := 5
